@@ -14,6 +14,7 @@ labels equal must have produced the same bits - across all steps, configs and hi
 import json
 import os
 import random
+import re
 
 import lib
 
@@ -63,6 +64,11 @@ def emit_histories(ctx, simulate=0):
             raise lib.Machinery("simulation failed:\n" + s.out[-1500:])
         nsim = len(sim)
         hs += sim
+        m = re.search(r"The number of states generated: (\d+)", s.out)
+        if m:  # simulation mode does not print the model-checking summary lib.tlc parses
+            ctx.states += int(m.group(1))
+            ctx.transitions += int(m.group(1))
+            ctx.coverage["tlc_runs"][-1]["generated"] = int(m.group(1))
     seen, out = set(), []
     for h in hs:
         k = json.dumps(h["hist"], sort_keys=True)
@@ -219,8 +225,9 @@ def run(ctx):
         "evaluations": stats["projections"] + stats["seeded_shots"],
         "distinct_nontrivial": sum(1 for h in hs if nontrivial(h)),
         "rule": "history = sequence of with_seed/with_shots/with_shot_offset/with_shot_increment/*_sim/"
-                "with_simulator/run calls each applied to ANY config derived so far, followed by an audit run of "
-                "every config; non-trivial = some config is the receiver of >= 2 steps (shared ancestor)",
+                "with_simulator/run calls each applied to ANY config derived so far (projection of every live config "
+                "checked after every step; for a time-budgeted subset selene is started for each run step and for a final "
+                "audit run of every seeded config); non-trivial = some config is the receiver of >= 2 steps (shared ancestor)",
         "samples": [h["hist"] for h in rnd.sample(hs, min(4, len(hs)))],
         "exhaustive": n_sim == 0,
         "exhaustive_histories_depth3": n_exh,
